@@ -473,6 +473,11 @@ where
                         Ok(CoroutineState::Suspend(y, timestamp))
                     }
                     CoroutineState::Syscall(y, syscall, state) => {
+                        // a delay or cancel request made while in a system call state belongs to this
+                        // yield: consume it, otherwise the next coroutine that yields on this thread
+                        // would inherit it
+                        _ = Suspender::<Yield, Param>::timestamp();
+                        _ = Suspender::<Yield, Param>::is_cancel();
                         Ok(CoroutineState::Syscall(y, syscall, state))
                     }
                     _ => Err(Error::other(format!(
